@@ -363,6 +363,79 @@ def compare_case(case, iout, mout, stats):
     return mism, orc
 
 
+def parse_ops(lines):
+    """script -> (fixed head of C lines incl. prelude, abstract ops) ; S lines are dropped and regenerated"""
+    ops, ser = [], 0
+    for l in lines:
+        c = l.split()
+        if c[0] == "A":
+            ops.append(("A", int(c[1]), int(c[2]), ser)); ser += 1
+        elif c[0] == "F":
+            ops.append(("F", int(c[1]), int(c[2]), int(c[3])))
+        elif c[0] in ("C", "D"):
+            ops.append((c[0], l))
+    return ops
+
+
+def render_ops(ops, nthreads=8, dumps=True):
+    """abstract ops -> script; frees of removed allocations are dropped, serials renumbered"""
+    lines, new, alive = [], {}, set()
+    for o in ops:
+        if o[0] in ("C", "D"):
+            lines.append(o[1])
+            if o[0] == "D":
+                pid = int(o[1].split()[1])
+                alive = {s for s in alive if new[s][1] != pid}
+        elif o[0] == "A":
+            new[o[3]] = (len(new), o[1]); alive.add(o[3])
+            lines.append("A %d %d" % (o[1], o[2]))
+            if dumps:
+                lines.append("S %d %d" % (o[1], nthreads))
+        elif o[3] in alive and new[o[3]][1] == o[1]:
+            alive.discard(o[3])
+            lines.append("F %d %d %d" % (o[1], o[2], new[o[3]][0]))
+            if dumps:
+                lines.append("S %d %d" % (o[1], nthreads))
+    return lines
+
+
+def shrink(exe, drv, env, lines, want_oracle, pagesize):
+    """delta debugging on the alloc/free operations; keeps a script on which the oracle still rejects (or, when no
+    failing input is known, on which model and implementation still disagree)"""
+    ops = parse_ops(lines)
+    pool_live = set()
+
+    def valid(sub):
+        # every op must address a pool that exists at that point
+        have = set()
+        for o in sub:
+            if o[0] == "C":
+                have.add(int(o[1].split()[1]))
+            elif o[0] == "D":
+                if int(o[1].split()[1]) not in have:
+                    return False
+                have.discard(int(o[1].split()[1]))
+            elif o[1] not in have:
+                return False
+        return True
+
+    def fails(sub):
+        if not valid(sub):
+            return False
+        L = render_ops(sub, dumps=not want_oracle)
+        case = {"env": env, "name": "shrink", "lines": L}
+        try:
+            rc, io, mo = run_group(exe, drv, env, [case], pagesize, 60)
+        except core.BuildError:
+            return False
+        mism, orc = compare_case(case, io, mo, {})
+        return bool(orc) if want_oracle else bool(mism)
+    if len(ops) > 4000 or not fails(ops):
+        return None
+    small = core.ddmin(ops, fails, budget=150)
+    return render_ops(small, dumps=not want_oracle)
+
+
 def run(ctx):
     rng = ctx.rng
     quick = ctx.tier == "quick"
@@ -376,7 +449,7 @@ def run(ctx):
         corpus.append(json.load(open(f)))
     for c in corpus:
         groups.setdefault(("corpus", c["env"]), []).append(c)
-    ngroups = 6 if quick else 30
+    ngroups = 6 if quick else 50
     for gi in range(ngroups):
         env = ENVS[gi % len(ENVS)] if gi < len(ENVS) else rng.choice(ENVS)
         if quick:
@@ -393,7 +466,13 @@ def run(ctx):
     for (gname, env), cases in groups.items():
         rc, iout, mout = run_group(exe, drv, env, cases, pagesize, 300 if quick else 900)
         ic, mc = split_cases(iout, cases), split_cases(mout, cases)
+        prelude = []        # creations of earlier cases of the process (the static max_alloc_size remembers them)
         for case, io, mo in zip(cases, ic, mc):
+            case["prelude"] = list(prelude)
+            for l in case["lines"]:
+                if l.startswith("C "):
+                    p_ = l.split()
+                    prelude += ["C 7 %s %s %s" % (p_[2], p_[3], p_[4]), "D 7"]
             ncases += 1
             st = {}
             mism, orc = compare_case(case, io, mo, st)
@@ -411,24 +490,33 @@ def run(ctx):
                 if len(samples) < 3:
                     samples.append({"env": env, "threads": case.get("threads"), "ops": nops, "paths": st, "first_lines": case["lines"][:12]})
             if mism:
-                mismatches.append(dict(mism, env=env, case=case["name"], group=gname, lines=case["lines"][:mism["step"] + 1][-400:]))
+                mismatches.append(dict(mism, env=env, case=case["name"], group=gname,
+                                       lines=case["prelude"] + case["lines"][:mism["step"] + 1]))
             for why, k in orc:
-                oracle_fail.append((why, {"env": env, "case": case["name"], "script": case["lines"][:k + 1][-600:], "reason": why}))
+                oracle_fail.append((why, {"env": env, "case": case["name"], "script": case["prelude"] + case["lines"][:k + 1], "reason": why}))
             if len(io) < len(case["lines"]):
                 break       # the process died: later cases of this group have no output
     # ---------------- M4: free-running stress (search tool) ----------------
     stress = []
-    sconf = [("1", 32768, 0, 2, 4), ("1", 6000, 64, 4, 12), ("1", 16, 0, 4, 40), ("90000", 9000, 0, 3, 20)]
+    # (env, size, align, threads|tasks, hold, runtime config or None = plain pthreads)
+    # runtime configurations have ONE worker per shepherd: with several workers per shepherd the scheduler itself
+    # sometimes never runs the forked tasks while the main task waits (2x2: 14 of 60 runs, 1x4: 3 of 60; all workers idle in
+    # qt_scheduler_get_thread, stealing flag / REAL_MCCOY hand-back) - outside C14, reported to the lead
+    sconf = [("1", 32768, 0, 2, 4, None), ("1", 6000, 64, 4, 12, None), ("1", 16, 0, 4, 40, None), ("90000", 9000, 0, 3, 20, None),
+             ("1", 6000, 0, 8, 10, (2, 1)), ("1", 16, 32, 8, 30, (4, 1))]
     if not quick:
-        sconf += [("1", 16384, 4096, 8, 10), (None, 64, 0, 4, 300), ("150000", 9000, 128, 6, 30)]
-    for (env, size, align, nt, hold) in sconf:
+        sconf += [("1", 16384, 4096, 8, 10, None), (None, 64, 0, 4, 300, None), ("150000", 9000, 128, 6, 30, None),
+                  ("1", 32768, 0, 12, 3, (3, 1)), ("90000", 9000, 64, 16, 12, (4, 1)), ("1", 16, 0, 16, 40, (6, 1))]
+    for (env, size, align, nt, hold, rt) in sconf:
         api = rng.below(2)
-        nops = 20000 if quick else 100000
-        lines = ["C 0 %d %d %d" % (size, align, api), "M 0 %d %d %d %d" % (nt, nops, hold, rng.below(1 << 30)), "X", "Q"]
+        nops = (20000 if quick else 100000) // (4 if rt else 1)
+        lines = ["C 0 %d %d %d" % (size, align, 1 if rt else api),
+                 "%s 0 %d %d %d %d" % ("R" if rt else "M", nt, nops, hold, rng.below(1 << 30)), "X", "Q"]
         kw = {} if env is None else {"QT_MAX_POOL_ALLOC_SIZE": env}
-        rc, out, err = core.run_lines(exe, lines, timeout=300, env=core.qenv(**kw))
+        rc, out, err = core.run_lines(exe, lines, timeout=300,
+                                      env=core.qenv(rt[0], rt[1], stack=65536, **kw) if rt else core.qenv(**kw))
         m = [l for l in out if l.startswith("M ")]
-        rec = {"env": env, "size": size, "align": align, "threads": nt, "result": m[0] if m else "no result rc=%s %s" % (rc, out[-2:])}
+        rec = {"env": env, "size": size, "align": align, "threads": nt, "runtime": "%dx%d qthreads" % rt if rt else "pthreads", "result": m[0] if m else "no result rc=%s %s" % (rc, out[-2:])}
         stress.append(rec)
         bad = None
         if not m:
@@ -462,6 +550,10 @@ def run(ctx):
     broken = bool(mismatches) or not pr["ok"]
     if not broken:
         for (w, c) in oracle_fail[:3]:
+            if not c.get("free_running"):
+                sm = shrink(exe, drv, c["env"], c["script"], True, pagesize)
+                if sm:
+                    c = dict(c, script=sm, shrunk_from=len(c["script"]))
             ctx.violation("unlisted:" + w.split()[0], w, c)
     else:
         what = ("correspondence model/implementation broken (%d cases; first: step %d `%s` impl `%s` model `%s`)" % (
@@ -469,9 +561,18 @@ def run(ctx):
             if mismatches else "theorems in %s no longer check" % pr["file"]
         if oracle_fail:
             w, c = oracle_fail[0]
+            if not c.get("free_running"):
+                sm = shrink(exe, drv, c["env"], c["script"], True, pagesize)
+                if sm:
+                    c = dict(c, script=sm, shrunk_from=len(c["script"]))
             ctx.violation("broken+input", what + "; failing input: " + w,
                           {"failing_input": c, "reason": w, "first_mismatch": mismatches[0] if mismatches else None, "coq_log": pr["log"][-1500:]})
         else:
+            if mismatches:
+                m0 = mismatches[0]
+                sm = shrink(exe, drv, m0["env"], m0["lines"], False, pagesize)
+                if sm:
+                    mismatches[0] = dict(m0, lines=sm, shrunk_from=len(m0["lines"]))
             ctx.violation("broken", what, {"theorem_or_correspondence": "impl != Mpool.Model (alloc/free/create)" if mismatches else pr["file"],
                                            "first_mismatch": mismatches[0] if mismatches else None, "coq_log": pr["log"][-1500:]}, no_input=True)
 
